@@ -364,8 +364,14 @@ impl<Meta: ObjectMeta> Archive<Meta> {
         hash: u64, name: &[u8], meta: &Meta, data: &[u8],
         mut empty: ObjectHeader, start: NonZeroU64,
     ) -> Result<(), ArchiveError> {
+        // The size of the empty space comes from the file: make sure it
+        // is inside the archive before touching anything.
+        let empty_end = u64::from(start).checked_add(
+            empty.size
+        ).filter(|end| *end <= self.file.size).ok_or(
+            ArchiveError::Corrupt("empty object exceeds archive")
+        )?;
         self.unlink_empty(start.into(), empty.next)?;
-        let empty_end = u64::from(start) + empty.size;
         let head = ObjectHeader::new(
             Self::page_object_size(name, data),
             self.get_index(hash)?,
@@ -492,7 +498,9 @@ impl<Meta: ObjectMeta> Archive<Meta> {
             let header = ObjectHeader::read(&self.file, next_start)?;
             if header.is_empty {
                 self.unlink_empty(next_start, header.next)?;
-                size += header.size;
+                size = size.checked_add(header.size).ok_or(
+                    ArchiveError::Corrupt("empty object exceeds archive")
+                )?;
             }
             ObjectHeader::new_empty(size, self.get_empty_index()?).write(
                 &mut self.file, start
